@@ -187,6 +187,9 @@ def _run_case(case, rec, mon=None):
             Ws = [2, 3, 4, 5, int(rng.integers(6, 41)), int(rng.integers(40, 601)), int(rng.integers(600, 4001)), fl, int(2 ** np.ceil(np.log2(fl)))]
             if cfg["name"] == "gabor":
                 Ws = [w for w in Ws if w <= 1500] + [int(rng.integers(6, 200))]
+            # widths whose half spectra have as many bins as a full spectrum asked for later (and the other way round)
+            w0 = int(rng.integers(6, 300))
+            Ws += [2 * (w0 - 1), 2 * w0 - 1, w0, 2 * w0 - 1, 2 * (w0 - 1)]
             for W in Ws:
                 for i in sorted({0, nf - 1, int(rng.integers(nf))}):
                     try:
